@@ -270,6 +270,33 @@ pub fn c05(tier: Tier) -> Vec<Case> {
             b.add_variant(grp, vi, "memo-subsets/long-inputs", with_memo(&g, &names, mask), spec.clone(), &format!("mask{mask}"));
         }
     }
+    // a memoized recursive rule reached at one offset through call paths of different depth, on deeply nested inputs
+    {
+        let mut inputs: Vec<String> = Vec::new();
+        let mut depths: Vec<usize> = vec![0, 1, 2, 3];
+        for c in [32usize, 64, 128, 256, 512, 1024] {
+            depths.extend((c - 8)..=(c + 2));
+        }
+        for n in depths {
+            inputs.push(format!("{}x{}", "(".repeat(n), ")".repeat(n)));
+            inputs.push(format!("{}x{}!", "(".repeat(n), ")".repeat(n)));
+        }
+        let g = Grammar {
+            rules: vec![
+                Rule::normal("Root", vec![Directive::Export, Directive::NoSkipWs], choice(vec![seq(vec![field("a", "Deep"), lit("!"), Expr::Eoi]), seq(vec![field("b", "Nest"), Expr::Eoi])])),
+                Rule::normal("Deep", vec![Directive::NoSkipWs], over("W1")),
+                Rule::normal("W1", vec![Directive::NoSkipWs], over("W2")),
+                Rule::normal("W2", vec![Directive::NoSkipWs], over("Nest")),
+                Rule::normal("Nest", vec![Directive::NoSkipWs], choice(vec![seq(vec![lit("("), bfield("inner", "Nest"), lit(")")]), field("leaf", "Leaf")])),
+                Rule::normal("Leaf", vec![Directive::NoSkipWs], lit("x")),
+            ],
+        };
+        let names = vec!["Nest".to_string(), "W2".to_string()];
+        let grp = b.new_group();
+        for (vi, mask) in subsets(2).into_iter().enumerate() {
+            b.add_variant(grp, vi, "memo-subsets/deep-recursion", with_memo(&g, &names, mask), InputSpec::List(inputs.clone()), &format!("mask{mask}"));
+        }
+    }
     let inputs = memo_inputs_ws(tier);
     for (g, names) in memo_bases_mixed_skip(tier) {
         let grp = b.new_group();
@@ -534,6 +561,28 @@ pub fn c07(tier: Tier) -> Vec<Case> {
             }
         }
     }
+    // (a'') long inputs: left-recursive rules entered at every offset up to 1025 (two nested levels, parentheses)
+    {
+        let mut inputs: Vec<String> = Vec::new();
+        for k in [1usize, 2, 3, 16, 31, 32, 33, 34, 63, 64, 65, 66, 127, 128, 129, 130, 255, 256, 257, 513] {
+            inputs.push(vec!["n"; k].join("+"));
+            inputs.push(vec!["n"; k].join("*"));
+            inputs.push(format!("{}+(n*n)", vec!["n"; k].join("+")));
+            inputs.push(format!("{}(n+n)", "n*".repeat(k)));
+        }
+        let g = Grammar {
+            rules: vec![
+                Rule::normal("Root", vec![Directive::Export, Directive::NoSkipWs], seq(vec![field("e", "E"), Expr::Eoi])),
+                Rule::normal("E", vec![Directive::Leftrec, Directive::NoSkipWs], choice(vec![seq(vec![bfield("l", "E"), lit("+"), field("r", "T")]), field("t", "T")])),
+                Rule::normal("T", vec![Directive::Leftrec, Directive::NoSkipWs], choice(vec![seq(vec![bfield("l", "T"), lit("*"), field("r", "A")]), field("a", "A")])),
+                Rule::normal("A", vec![Directive::NoSkipWs], choice(vec![seq(vec![lit("("), bfield("e", "E"), lit(")")]), field("n", "N")])),
+                n_rule(),
+            ],
+        };
+        if wf::well_formed(&g) && b.add("leftrec/long-inputs", g, InputSpec::List(inputs)) {
+            b.last().note = "recursive-first".into();
+        }
+    }
     // (a') base alternatives before, between and after the recursive one; bases that recurse at a later position
     {
         let inputs = InputSpec::Strings { alphabet: vec!['n', '+', '-', '(', ')'], max_len: if tier == Tier::Quick { 6 } else { 7 } };
@@ -723,6 +772,7 @@ pub fn c10(tier: Tier) -> Vec<Case> {
             }
         }
     }
+    super::e1::wide_choice_family(&mut b, "errors/wide-choice");
     // (2) memoized grammars: the offset must be real
     let minputs = memo_inputs(tier);
     for (g, names) in memo_bases(Tier::Quick) {
